@@ -485,7 +485,7 @@ theorem observe_applies_next_nonce (s : State) (h : Nat) (ev : Ev) :
         split at hh
         · cases hh
         · cases hh; simp [executeBatch, cancelBatches]
-    obtain ⟨fm, hfm⟩ := cleanupCalls_core (cleanupBatches s2)
+    obtain ⟨fm, er, hfm⟩ := cleanupCalls_core (cleanupBatches s2)
     rw [hfm]
     unfold cleanupCallsCore
     show (foldl refundCall _ _).eventNonce = _
